@@ -2,12 +2,14 @@
 SPECIFICATION GenSpec
 CONSTANTS
   CacheMerged = TRUE
+  OwnUnion = TRUE
   MaxRewrites = 1
   MinNodes = 1
   MaxNodes = 2
   CPUs = {0, 1, 2}
   LimitVals = {1, 2, 3, 99}
   Kinds = {"cpuset", "limit"}
+  Algos = {"leveled"}
   CacheMode = "coldwarm"
 INVARIANT GenPrint
 CHECK_DEADLOCK FALSE
